@@ -81,6 +81,10 @@ def generate(tier, rng):
         keep, dele = (l, []) if u < 0.45 else ([], l) if u < 0.9 else (l, _intervals(rng, nt, 2, True, dy))
         if rng.random() < 0.08 and l:
             l[-1][1] = nt + rng.choice([K, 3 * K] if (rep and not dy) else [1, K, 3 * K])          # beyond the recording
+        if rng.random() < 0.25:
+            # the lists in whatever order the caller collected them (an over-long interval is then not the last one listed)
+            rng.shuffle(keep)
+            rng.shuffle(dele)
         prior = _intervals(rng, nt, 2, True, dy) if rng.random() < 0.5 else None
         cases.append({"op": "readat", "w": w, "rate": rate, "s": s, "keep": keep, "del": dele, "rep": rep, "prior": prior,
                       "scale": ["ticks", K]})
@@ -169,6 +173,24 @@ def _split_case(case, d):
     style = rng.choice([None, "append", "append_no_i", "label"])
     strict = rng.random() < 0.5
     tgflag = rng.choice([False, True, "phones"])
+    if rng.random() < 0.4:
+        # the output folder is not fresh: an earlier run on another segmentation of the same recording (every interval
+        # moved by a few samples, same lengths, same labels) left files with the very same names there
+        moved = []
+        for es, ee, lab in ents:
+            i, j = es * rate, ee * rate
+            k = rng.choice([-2, -1, 1, 2, 3])
+            k = max(-i, min(n - j, k))
+            lo = moved[-1][1] if moved else 0.0
+            moved.append((max(lo, (i + k) / rate), (j + k) / rate, lab))
+        if all(a < b for a, b, _ in moved):
+            tg0 = Textgrid(0.0, dur)
+            tg0.addTier(IntervalTier("words", moved, 0.0, dur))
+            for nm in ("phones", "pts"):
+                tg0.addTier(tg.getTier(nm).new())
+            tgfn0 = os.path.join(d, "earlier.TextGrid")
+            tg0.save(tgfn0, "short_textgrid", True)
+            praatio_scripts.splitAudioOnTier(wavfn, tgfn0, "words", outdir, tgflag, style, strict)
     ret = praatio_scripts.splitAudioOnTier(wavfn, tgfn, "words", outdir, tgflag, style, strict)
     probs = []
     files = sorted(os.listdir(outdir))
@@ -205,6 +227,13 @@ def _split_case(case, d):
     got, params = _read_wav(exfn)
     if got != s[round(es * rate):round(ee * rate)] or params != [1, w, rate]:
         probs.append("extractSubwav wrote %d samples / %r" % (len(got), params))
+    # ... and trimming a recording in place (the output file is the input file)
+    infn = os.path.join(d, "trim.wav")
+    shutil.copyfile(wavfn, infn)
+    audio.extractSubwav(infn, infn, es, ee)
+    got, params = _read_wav(infn)
+    if got != s[round(es * rate):round(ee * rate)] or params != [1, w, rate]:
+        probs.append("extractSubwav onto its own input wrote %d samples / %r" % (len(got), params))
     return probs
 
 
